@@ -210,6 +210,37 @@ class Model:
                 if new not in renames:
                     renames[new] = old
                     self.heal_log.append(f"{m.relpath}:{new}: a pure rename of `{old}` (bodies equal in normal form); analysed under the reviewed name")
+        # a top-level function moved to another module of the package (same name, same normal form): the reviewed module
+        # gets its definition back, so that rules anchored there still find it
+        from .equiv import Ctx, function_table, normal_form
+
+        cur_tabs = {m.relpath: function_table(m.tree) for m in changed}
+        ref_tabs = {m.relpath: function_table(reference_module(m.relpath)[1]) for m in changed}
+        for m in changed:
+            gone = [k for k in ref_tabs[m.relpath] if "." not in k and "#" not in k and k not in cur_tabs[m.relpath]]
+            for k in gone:
+                rnode = ref_tabs[m.relpath][k][0]
+                for other in changed:
+                    if other is m or k not in cur_tabs[other.relpath] or k in ref_tabs[other.relpath]:
+                        continue
+                    try:
+                        same = normal_form(cur_tabs[other.relpath][k][0], Ctx({}, {}, None, set())) == normal_form(rnode, Ctx({}, {}, None, set()))
+                    except Exception:
+                        same = False
+                    if same:
+                        m.tree = _copy.deepcopy(m.tree) if m.tree is (self._reuse.modules[m.name].tree if self._reuse is not None and m.name in self._reuse.modules else None) else m.tree
+                        # drop an import of the same name (the moved function is imported back), then define it here
+                        body = []
+                        for st in m.tree.body:
+                            if isinstance(st, ast.ImportFrom):
+                                st.names = [a for a in st.names if (a.asname or a.name) != k]
+                                if not st.names:
+                                    continue
+                            body.append(st)
+                        m.tree.body = body + [_copy.deepcopy(rnode)]
+                        ast.fix_missing_locations(m.tree)
+                        self.heal_log.append(f"{m.relpath}:{k}: moved to {other.relpath} unchanged (normal forms equal); also analysed at its reviewed place")
+                        break
         for m in changed:
             tree = m.tree
             src = m.src
